@@ -3,6 +3,7 @@ package main
 import (
 	"fmt"
 	"os"
+	"time"
 )
 
 func main() {
@@ -13,6 +14,8 @@ func main() {
 	switch os.Args[1] {
 	case "translate":
 		os.Exit(cmdTranslate(os.Args[2], os.Args[3]))
+	case "run":
+		os.Exit(cmdRun(10 * time.Second))
 	default:
 		fmt.Println("unknown command", os.Args[1])
 		os.Exit(2)
